@@ -333,6 +333,63 @@ def target_state(graph, rep):
     return QuantumState(graph_to_density(graph), rep_type="dm")
 
 
+def process_neighbours():
+    """What else a process that uses graphiq has typically done before (and between) the calls a check makes: tableau
+    conversions (they run synthesised circuits BACKWARDS), a forward circuit run, a small compile on both backends, a
+    deterministic solve, an LC-orbit exploration, a metric evaluation, an export.  Nothing is judged here (the checks
+    of those properties do that); what these calls leave behind in the library - module-level tables, default arguments,
+    class-level caches - is then in place for the calls that ARE judged.  Global random states are restored afterwards."""
+    import random
+    import warnings
+    import networkx as nx
+    py_state, np_state = random.getstate(), np.random.get_state()
+    try:
+        with warnings.catch_warnings():
+            warnings.simplefilter("ignore")
+            from graphiq.backends.stabilizer.clifford_tableau import CliffordTableau
+            from graphiq.backends.stabilizer.tableau import StabilizerTableau
+            from graphiq.backends.stabilizer.functions.rep_conversion import clifford_from_stabilizer, get_clifford_tableau_from_graph
+            import graphiq.backends.stabilizer.functions.transformation as tr
+            from graphiq.backends.stabilizer.compiler import StabilizerCompiler
+            from graphiq.backends.density_matrix.compiler import DensityMatrixCompiler
+            from graphiq.metrics import Infidelity, CircuitDepth
+            from graphiq.solvers.time_reversed_solver import TimeReversedSolver
+            from graphiq.state import QuantumState
+            import graphiq.utils.relabel_module as rm
+            steps = [
+                lambda: clifford_from_stabilizer(StabilizerTableau([np.array([[1]]), np.array([[1]])], np.array([0]))),
+                lambda: CliffordTableau(StabilizerTableau([np.array([[1, 0], [1, 1]]), np.array([[1, 1], [0, 1]])], np.array([0, 1]))),
+                lambda: get_clifford_tableau_from_graph(nx.path_graph(3)),
+                lambda: tr.run_circuit(CliffordTableau(2), [("H", 0), ("P", 0), ("CNOT", 0, 1), ("P_dag", 1)]),
+                lambda: rm.lc_orbit_finder(nx.path_graph(4), comp_depth=2, orbit_size_thresh=4),
+                lambda: rm.depth_first_orbit(nx.star_graph(3)),
+            ]
+
+            def solve_and_compile():
+                target = QuantumState(get_clifford_tableau_from_graph(nx.cycle_graph(4)), rep_type="s")
+                comp = StabilizerCompiler()
+                comp.measurement_determinism = 1
+                solver = TimeReversedSolver(target=target, metric=Infidelity(target), compiler=comp)
+                solver.solve()
+                circuit = solver.result[1]
+                for c in (StabilizerCompiler(), DensityMatrixCompiler()):
+                    c.measurement_determinism = 1
+                    st = c.compile(circuit)
+                    st.partial_trace(keep=list(range(circuit.n_photons)), dims=circuit.n_quantum * [2])
+                CircuitDepth().evaluate(None, circuit)
+                circuit.to_openqasm()
+                circuit.copy().unwrap_nodes()
+            steps.append(solve_and_compile)
+            for f in steps:
+                try:
+                    f()
+                except Exception:
+                    pass
+    finally:
+        random.setstate(py_state)
+        np.random.set_state(np_state)
+
+
 def trs_pool(rare_first=True):
     """Solver targets chosen by execution coverage of the deterministic solver (engine/covpool.py, committed list
     /verif/pools/trs_targets.json): labelled 5 - 7 vertex graphs, those that reach rarely executed solver code first."""
